@@ -235,6 +235,98 @@ def macro_shape(body):
     raise ValueError("unrecognised success test in wrapper macro: %r" % b)
 
 
+# ---- failure-value conventions: what a callee returns on failure vs. what its callers test for -------------------
+RET_TOK = r"(FAIL|FALSE|NULL|TRUE|SUCCEED|-\s*1|\(\s*-\s*1\s*\)|0|1)\b"
+
+
+def fail_kind(body):
+    """the value(s) a function hands back on failure, from its return statements and error macros"""
+    vals = set()
+    for m in re.finditer(r"\breturn\s*\(?\s*" + RET_TOK, body):
+        vals.add(m.group(1))
+    for m in re.finditer(r"\bret_value\s*=\s*" + RET_TOK, body):
+        vals.add(m.group(1))
+    for m in re.finditer(r"\b(?:HGOTO_ERROR|HRETURN_ERROR|HE_REPORT_GOTO|HE_REPORT_RETURN)\s*\([^;]*?,\s*" + RET_TOK + r"\s*\)\s*;", body):
+        vals.add(m.group(1))
+    for m in re.finditer(r"\b(?:HGOTO_FAIL|HGOTO_DONE)\s*\(\s*" + RET_TOK + r"\s*\)", body):
+        vals.add(m.group(1))
+    vals = {re.sub(r"[\s()]", "", v) for v in vals}
+    has_fail = bool(vals & {"FAIL", "-1"})
+    has_false = "FALSE" in vals or ("0" in vals and "1" in vals and not has_fail) or ("TRUE" in vals and not has_fail)
+    if has_fail and "FALSE" in vals:
+        return "MIXED"
+    if has_fail:
+        return "FAIL"
+    if has_false:
+        return "FALSE"
+    if "NULL" in vals:
+        return "NULL"
+    return "NONE"
+
+
+def test_kind(body, pos, name):
+    """how the result of the call at body[pos] is tested"""
+    ifc = enclosing_if(body, pos)
+    cond = None
+    if ifc is not None:
+        cond = body[ifc[0]:ifc[1]]
+    else:
+        s, e = statement_bounds(body, pos)
+        m = re.match(r"\s*([A-Za-z_][A-Za-z0-9_>\.\-\*\(\)\[\] ]*?)\s*=\s*(?:\([A-Za-z_0-9 \*]+\)\s*)?$", body[s:pos])
+        if re.match(r"\s*return\b", body[s:e]):
+            return "RETURNED"
+        if m:
+            var = m.group(1).strip().split()[-1]
+            if var == "ret_value":
+                return "RETURNED"
+            rest = body[e:e + 300]
+            t = re.match(r"\s*if\s*\(", rest)
+            if t:
+                ce = match_paren(rest, t.end() - 1)
+                c2 = rest[t.end() - 1:ce]
+                if re.search(r"\b%s\b" % re.escape(var), c2):
+                    cond = c2.replace(var, name + "()")
+        if cond is None:
+            return "UNTESTED"
+    c = " ".join(cond.split())
+    if re.search(r"\bFAIL\b|==\s*-\s*1|==\s*\(\s*-\s*1\s*\)|<\s*0", c):
+        return "FAIL"
+    if re.search(r"!\s*%s\s*\(" % re.escape(name), c) or re.search(r"\bFALSE\b|!=\s*TRUE", c):
+        return "FALSE"
+    if re.search(r"\bNULL\b", c):
+        return "NULL"
+    if re.search(r"\bSUCCEED\b", c):
+        return "NOTSUCCEED"
+    return "TRUTH"            # if (f(..)) ...
+
+
+def conventions(H, repo, files, callees):
+    rows = []
+    texts = {f: H.raw(repo, f) for f in files}
+    kinds = {}
+    for c in callees:
+        for f, txt in texts.items():
+            try:
+                kinds[c] = fail_kind(H.func_body(txt, c))
+                break
+            except ValueError:
+                continue
+    for f, txt in texts.items():
+        # every function body of the file
+        for fm in re.finditer(r"(?m)^([A-Za-z_][A-Za-z0-9_]*)\s*\([^;{)]*\)\s*\{", txt):
+            caller = fm.group(1)
+            try:
+                body = H.func_body(txt, caller)
+            except ValueError:
+                continue
+            for c in callees:
+                if c == caller or c not in kinds:
+                    continue
+                for m in re.finditer(r"\b%s\s*\(" % re.escape(c), body):
+                    rows.append((caller, c, kinds[c], test_kind(body, m.start(), c)))
+    return rows
+
+
 def emit(repo, spec, H):
     out = ["From Coq Require Import String.", "Local Open Scope string_scope.",
            "Inductive cls := Checked | Late | Returned | OnFailPath | Diverted | Dropped.", ""]
@@ -264,6 +356,11 @@ def emit(repo, spec, H):
         body = H.func_body(H.raw(repo, f), fn)
         out.append("(* %s: %s contains /%s/ ? *)" % (f, fn, rx.replace("(*", "( *").replace("*)", "* )").replace('"', "'")))
         out.append("Definition fact_%s : bool := %s." % (name, "true" if re.search(rx, body) else "false"))
+    if spec.get("conventions"):
+        rows = conventions(H, repo, spec["conventions"]["files"], spec["conventions"]["callees"])
+        out.append("(* failure-value conventions: (caller, callee, what the callee returns on failure, what the caller tests) *)")
+        out.append("Definition conventions : list (string * string * string * string) :=\n  [%s]." % ";\n   ".join(
+            '("%s", "%s", "%s", "%s")' % r for r in rows))
     out.append("Definition anchored : list (string * list (string * cls)) :=\n  [%s]." % ";\n   ".join(
         '("%s", sites_%s)' % (fn, fn) for fn in allf))
     return out
